@@ -83,7 +83,7 @@ def handle (args : List String) : String :=
        | .error _ => "err:handler")
   | ["jwk", v] =>
     if v == "priv" then "err:handler" else if v == "garbage" then "err:parse" else
-    if v != "ed" && v != "edalg" && v != "edx5" && v != "p256" && v != "rsa" && v != "edchain" then "bad-request" else
+    if !(["ed", "edalg", "edx5", "p256", "rsa", "edchain", "p256alg", "p384alg", "p521alg", "p521", "k256alg", "x25519"].contains v) then "bad-request" else
     let doc := expandDidJwk 1 77
     let mid : Id := ⟨1, 0, some 0⟩
     let key := match doc.vm with | [m] => m.body == 77 && m.id == mid | _ => false
